@@ -1,0 +1,34 @@
+//go:build verif
+
+// Contract for split.go, read by /verif/vcgen (comment-only; adds no code).
+
+package memefish
+
+// Pieces so far (loop invariant) / returned pieces:
+//   every piece is s[Pos:End], in range, pieces are ordered and separated by at least the ';' that ends
+//   each of them (s[End] == ';'), and the text between two pieces is that ';' followed by whitespace only.
+// @ spec sameText(x, s, lo, hi) = isSub(x, s, lo, hi) || (len(x) == 0 && lo == hi)
+// @ spec pieceOK(s, r, k, limit) = r[k] != nil && 0 <= r[k].Pos && r[k].Pos <= r[k].End && r[k].End < limit && sameText(r[k].Statement, s, r[k].Pos, r[k].End)
+
+// @ func memefish.SplitRawStatements
+// @   props C12 C03
+// @   ensures[C03,C12] typed: result1 == nil || typeIs(result1, "*memefish.Error")
+// @   ensures[C12] fails: result1 != nil ==> isNil(result0)
+// @   ensures[C12] consumed: result1 == nil ==> lex.pos == len(s) && lex.Token.Kind == "<eof>"
+// @   ensures[C12] nonempty: result1 == nil ==> len(result0) >= 1
+// @   ensures[C12] pieces: result1 == nil ==> (forall k: 0 <= k && k < len(result0) ==> result0[k] != nil && 0 <= result0[k].Pos && result0[k].Pos <= result0[k].End && result0[k].End <= len(s) && sameText(result0[k].Statement, s, result0[k].Pos, result0[k].End))
+// @   ensures[C12] order: result1 == nil ==> (forall k: 0 <= k && k < len(result0) - 1 ==> result0[k].End < result0[k + 1].Pos)
+// @   ensures[C12] cut: result1 == nil ==> (forall k: 0 <= k && k < len(result0) - 1 ==> s[result0[k].End] == ';')
+// @   ensures[C12] last: result1 == nil ==> result0[len(result0) - 1].End == len(s) || s[result0[len(result0) - 1].End] == ';' || (len(result0) == 1 && result0[0].Pos == 0 && result0[0].End == 0)
+// @   ensures[C12] gap: result1 == nil ==> (forall k: 0 <= k && k < len(result0) - 1 ==> spaceOnly(s, result0[k].End + 1, result0[k + 1].Pos))
+// @   panics never
+// @   modifies nothing
+// @   loop 0 invariant lex != nil && LexInv(lex) && lex.Token.End == lex.pos && isSub(lex.Buffer, s, 0, len(s)) && fresh(lex) && fresh(lex.File)
+// @   loop 0 invariant 0 <= firstPos && firstPos <= lex.Token.Pos && lex.Token.Pos <= lex.Token.End
+// @   loop 0 invariant lex.Token.Kind == ";" ==> lex.Token.End == lex.Token.Pos + 1 && s[lex.Token.Pos] == ';'
+// @   loop 0 invariant lex.Token.Kind == "<eof>" ==> lex.Token.Pos == len(s)
+// @   loop 0 invariant pieces: forall k: 0 <= k && k < len(result) ==> pieceOK(s, result, k, firstPos) && s[result[k].End] == ';' && fresh(result[k])
+// @   loop 0 invariant order: forall k: 0 <= k && k < len(result) - 1 ==> result[k].End < result[k + 1].Pos
+// @   loop 0 invariant gap: forall k: 0 <= k && k < len(result) - 1 ==> spaceOnly(s, result[k].End + 1, result[k + 1].Pos)
+// @   loop 0 invariant gaplast: len(result) > 0 ==> spaceOnly(s, result[len(result) - 1].End + 1, firstPos)
+// @   loop 0 decreases 2 * (len(s) - lex.pos) + ite(lex.Token.Kind == "<eof>", 0, 1)
